@@ -45,12 +45,15 @@ enum Ev {
     R(u16),
     W(u16, Option<u8>),
     X(String),
+    /// register transfer executed (opcode)
+    T(u8),
 }
 
 fn hw_watch(m: &mut crate::emu6502::Machine, marks: &BTreeMap<u16, String>) {
     m.watch.push((0x00, 0x80));
     m.watch.push((0x0280, 0x0281));
     m.pc_marks = marks.keys().cloned().collect();
+    m.watch_ops = vec![0x8a, 0xaa, 0x98, 0xa8]; // TXA TAX TYA TAY
     m.max_events = 20_000;
 }
 
@@ -64,7 +67,13 @@ fn observed_trace(m: &crate::emu6502::Machine, marks: &BTreeMap<u16, String>) ->
         match e.kind {
             AccKind::Read | AccKind::RmwRead => v.push(Ev::R(e.addr)),
             AccKind::Write | AccKind::RmwWrite => v.push(Ev::W(e.addr, Some(e.val))),
-            AccKind::Exec => v.push(Ev::X(marks.get(&e.addr).cloned().unwrap_or_default())),
+            AccKind::Exec => {
+                if e.val != 0 {
+                    v.push(Ev::T(e.val))
+                } else {
+                    v.push(Ev::X(marks.get(&e.addr).cloned().unwrap_or_default()))
+                }
+            }
         }
         cyc.push(e.cycle);
     }
@@ -102,6 +111,8 @@ fn judge_trace(kind: &str, idx: u64, p: &Program, tag: &str) -> CaseResult {
             };
             let rr = run_compiled(p, &built, &input, cycle_budget(steps), &|m| hw_watch(m, &marks));
             let (got, cyc) = observed_trace(&rr.machine, &marks);
+            let got_all = got.clone();
+            let mut openers: std::collections::BTreeSet<String> = std::collections::BTreeSet::new();
             // expected lists from the reference trace: `full` has every access to a hardware
             // operand; `want` only what the explicit statements do (the property's subject)
             let mut full: Vec<Ev> = Vec::new();
@@ -131,16 +142,69 @@ fn judge_trace(kind: &str, idx: u64, p: &Program, tag: &str) -> CaseResult {
                             sleeps.push((want.len() - 1, *n));
                         }
                     }
+                    TraceEv::Xfer(op) => {
+                        if last_marker {
+                            if let Some(Ev::X(m)) = want.last() {
+                                openers.insert(m.clone());
+                            }
+                        }
+                        full.push(Ev::T(*op));
+                        want.push(Ev::T(*op));
+                        // keep `last_marker` false: the bracket is open until the next marker
+                    }
                     TraceEv::Enter(_) => continue,
                 }
                 last_marker = marker;
             }
+            // register transfers are also what ordinary code is made of: only those executed
+            // inside a transfer bracket (a marker directly followed by load(X) / load(Y), up to
+            // the next marker) belong to explicit statements
+            let got: Vec<Ev> = {
+                let mut open = false;
+                let mut out = Vec::new();
+                for e in got.into_iter() {
+                    match &e {
+                        Ev::X(m) => {
+                            open = openers.contains(m);
+                            out.push(e);
+                        }
+                        Ev::T(_) => {
+                            if open {
+                                out.push(e);
+                            }
+                        }
+                        _ => out.push(e),
+                    }
+                }
+                out
+            };
+            let cyc: Vec<u64> = {
+                // cycles of the kept events only (same filter)
+                let mut open = false;
+                let mut out = Vec::new();
+                for (e, c) in got_all.iter().zip(cyc.iter()) {
+                    match e {
+                        Ev::X(m) => {
+                            open = openers.contains(m);
+                            out.push(*c);
+                        }
+                        Ev::T(_) => {
+                            if open {
+                                out.push(*c);
+                            }
+                        }
+                        _ => out.push(*c),
+                    }
+                }
+                out
+            };
             // observed accesses that can only come from explicit statements (see cgen::hw_stmt):
             // reads of HW0, writes of the write-only registers, executed markers
             let explicit_only = |e: &Ev| match e {
                 Ev::R(a) => *a == EXPLICIT_READ,
                 Ev::W(a, _) => WRITE_ONLY_HW.contains(a),
                 Ev::X(_) => true,
+                Ev::T(_) => true,
             };
             let mut got_x = Vec::new();
             let mut cyc_x = Vec::new();
@@ -154,10 +218,12 @@ fn judge_trace(kind: &str, idx: u64, p: &Program, tag: &str) -> CaseResult {
                 (Ev::R(a), Ev::R(b)) => a == b,
                 (Ev::W(a, _), Ev::W(b, _)) => a == b,
                 (Ev::X(a), Ev::X(b)) => a == b,
+                (Ev::T(a), Ev::T(b)) => a == b,
                 _ => false,
             };
             res.count("comparisons", 1);
             res.count("explicit accesses / markers compared", want.len() as u64);
+            res.count("explicit register transfers compared", want.iter().filter(|e| matches!(e, Ev::T(_))).count() as u64);
             let first_diff = |w: &Vec<Ev>, g: &Vec<Ev>| -> Option<usize> {
                 let i = w.iter().zip(g.iter()).take_while(|(a, b)| ev_eq(a, b)).count();
                 if i == w.len() && i == g.len() {
@@ -422,7 +488,8 @@ fn strobe_pin(idx: u64) -> CaseResult {
                     Ev::R(_) => "R",
                     Ev::W(..) => "W",
                     Ev::X(_) => "X",
-                }).collect();
+                    Ev::T(_) => "T",
+                }).filter(|k| *k != "T").collect();
                 res.count("comparisons", 1);
                 if kinds != ["R", "W", "W", "W"] {
                     res.class = "pinned witness: violated".into();
@@ -494,6 +561,7 @@ impl Monitor for C18 {
             ("set:cycle-monitor contexts".into(), 5),
             ("csleep durations measured in context".into(), 1000),
             ("explicit accesses / markers compared".into(), 50000),
+            ("explicit register transfers compared".into(), 2000),
             ("adjacent read/write of the same hardware operand".into(), 200),
             ("adjacent writes to the same hardware operand".into(), 200),
         ]
